@@ -117,12 +117,14 @@ def deep_core(depth, rnd):
 
 
 def dates():
-    return st.dates(min_value=datetime.date(1971, 1, 2), max_value=datetime.date(2200, 1, 1))
+    return st.dates(min_value=datetime.date(1902, 1, 2), max_value=datetime.date(2200, 1, 1))
 
 
 def datetimes_ms():
     # naive, whole milliseconds, TZ=UTC in the environment: float-timestamp transport is exact there
-    return st.datetimes(min_value=datetime.datetime(1971, 1, 2), max_value=datetime.datetime(2200, 1, 1)).map(
+    # (dates before the epoch too: negative timestamps)
+    return st.one_of(st.datetimes(min_value=datetime.datetime(1902, 1, 2), max_value=datetime.datetime(2200, 1, 1)),
+                     st.datetimes(min_value=datetime.datetime(1969, 12, 30), max_value=datetime.datetime(1970, 1, 3))).map(
         lambda d: d.replace(microsecond=(d.microsecond // 1000) * 1000))
 
 
